@@ -52,12 +52,16 @@ ApplyBounds(bs, k, B) ==
 ObjRow(tree) == IF "objname" \in DOMAIN tree /\ tree.objname # "" THEN tree.objname ELSE tree.objrow
 
 Denote(tree) ==
-  LET cols == tree.cols
-      n == Len(cols)
-      rows == tree.rows
+  LET rows == tree.rows
       m == Len(rows)
+      RowNames == {rows[i].name : i \in 1..m}
+      \* a column whose entries all lie in N rows other than the objective does not exist in the problem
+      \* (rawlp.c: "is used in non objective 'N' rows only"); its bounds are ignored with it
+      Used(c) == \E k \in 1..Len(c.ent) : c.ent[k].row = ObjRow(tree) \/ c.ent[k].row \in RowNames
+      cols == SelectSeq(tree.cols, Used)
+      n == Len(cols)
       cname == [j \in 1..n |-> cols[j].col]
-      B0 == [c \in {cname[j] : j \in 1..n} |-> [lo |-> "0", up |-> "inf", hasLo |-> FALSE, hasUp |-> FALSE, int |-> FALSE]]
+      B0 == [c \in {tree.cols[j].col : j \in 1..Len(tree.cols)} |-> [lo |-> "0", up |-> "inf", hasLo |-> FALSE, hasUp |-> FALSE, int |-> FALSE]]
       B == ApplyBounds(tree.bounds, 1, B0)
       isint(j) == cols[j].integer \/ B[cname[j]].int
       lo(j) == LET b == B[cname[j]] IN IF ~b.hasLo /\ b.hasUp /\ b.up # "inf" /\ RSign(b.up) < 0 THEN "-inf" ELSE b.lo
